@@ -164,14 +164,18 @@ Theorem C06_meta_inputs : forall nodes o p,
              nth_error (po_map p) (Z.to_nat x) = Some (po_output p)).
 Proof. exact meta_struct_thm. Qed.
 
-(* Value preservation for graphs WITHOUT ArrayToVector, Zip, A2B and B2A: TupleGet of
-   CreateTuple, NamedTupleGet of CreateNamedTuple and VectorGet (constant U64 index) of
-   CreateVector are replaced by the element, a VectorGet on an unknown vector is re-emitted on
-   the mapped operands.  meta_hyps nodes: Constant nodes have the type of their literal, every node
-   has fewer than 2^64 dependencies (true of any Rust Vec), none of the four operations occurs, and constructors /
-   getters carry the type the graph builder gives them (meta_typed). *)
+(* Value preservation for graphs WITHOUT ArrayToVector and Zip: TupleGet of CreateTuple,
+   NamedTupleGet of CreateNamedTuple and VectorGet (constant U64 index) of CreateVector are
+   replaced by the element; a VectorGet on an unknown vector is re-emitted on the mapped operands;
+   A2B (B2A st x) is replaced by x, and B2A st (A2B x) by x when st is the scalar type of x.
+   meta_hyps nodes: Constant nodes have the type of their literal, every node has fewer than 2^64
+   dependencies (true of any Rust Vec), ArrayToVector and Zip do not occur, and constructors,
+   getters, A2B and B2A carry the type the graph builder gives them (meta_typed).  If the graph
+   contains A2B or B2A, the values of the run must be well typed (vals_typed; the round trips are
+   the identity only on normalised elements resp. on bits). *)
 Theorem C06_meta_sem_partial : forall nodes o p tape vals,
   meta_hyps nodes ->
+  (bits_ops nodes -> vals_typed nodes vals) ->
   opt_meta nodes o = Ok p ->
   eval_graph_nodes nodes tape = Ok vals ->
   exists vals', eval_graph_nodes (po_nodes p) (transport (po_map p) tape) = Ok vals' /\
@@ -181,11 +185,9 @@ Theorem C06_meta_sem_partial : forall nodes o p tape vals,
 Proof. exact meta_sem_transport. Qed.
 
 (* NOT proved: the same without the restriction `simple_meta` (VectorGet of Zip and of
-   ArrayToVector, A2B after B2A, B2A after A2B with the scalar-type test); it needs the values
-   to be well typed (C09) for the A2B/B2A round trip. *)
+   ArrayToVector, which create Get / GetSlice / CreateTuple nodes). *)
 Definition C06_meta_sem_full : Prop := forall nodes o p tape vals,
-  const_typed nodes -> meta_typed nodes ->
-  (forall i nd v, nth_error nodes i = Some nd -> nth_error vals i = Some v -> has_type v (n_ty nd) = true) ->
+  const_typed nodes -> meta_typed nodes -> vals_typed nodes vals ->
   opt_meta nodes o = Ok p ->
   eval_graph_nodes nodes tape = Ok vals ->
   exists vals', eval_graph_nodes (po_nodes p) (transport (po_map p) tape) = Ok vals' /\
@@ -225,7 +227,7 @@ Theorem C06_optimize_sem_transport_partial : forall infer nodes o p tape vals,
   exists p1 p2 p3 p4,
     opt_const nodes o = Ok p1 /\ opt_meta (po_nodes p1) (po_output p1) = Ok p2 /\
     opt_dup (po_nodes p2) (po_output p2) = Ok p3 /\ opt_dangling (po_nodes p3) (po_output p3) = Ok p4 /\
-    (meta_hyps (po_nodes p1) -> typed_nodes infer (po_nodes p2) ->
+    (meta_hyps (po_nodes p1) -> ~ bits_ops (po_nodes p1) -> typed_nodes infer (po_nodes p2) ->
      (forall nd deps, In nd (po_nodes p2) -> from_tape (n_op nd) = true -> node_key nd deps = Ok None) ->
      exists vals', eval_graph_nodes (po_nodes p)
                      (transport (po_map p4) (transport (po_map p3) (transport (po_map p2) (transport (po_map p1) tape))))
@@ -234,7 +236,8 @@ Theorem C06_optimize_sem_transport_partial : forall infer nodes o p tape vals,
 Proof. exact optimize_sem_transport. Qed.
 
 (* The pipeline with hypotheses on the INPUT graph only, for graphs without ArrayToVector, Zip,
-   A2B, B2A (simple_ops) and without tape operations that have a de-duplication key (nokey:
+   A2B, B2A (simple_ops; A2B/B2A are excluded here only because well-typedness of the values of
+   the intermediate graph is not derived) and without tape operations that have a de-duplication key (nokey:
    no CuckooHash / Shard / Join / Sort / ...): the graph is typed by an inference function infer
    that gives a Constant the type of its literal (typed_nodes, infer_const), Constant nodes carry
    the literal's type, constructors and getters carry the builder's types (meta_typed), nodes
@@ -271,7 +274,8 @@ Theorem C06_optimize_annots_partial : forall infer nodes o p tape vals,
                    incl (n_annots nd) (n_annots nd').
 Proof. exact optimize_annots. Qed.
 Theorem C06_meta_annots_partial : forall nodes o p tape vals,
-  meta_hyps nodes -> opt_meta nodes o = Ok p -> eval_graph_nodes nodes tape = Ok vals ->
+  meta_hyps nodes -> (bits_ops nodes -> vals_typed nodes vals) ->
+  opt_meta nodes o = Ok p -> eval_graph_nodes nodes tape = Ok vals ->
   forall i j, nth_error (po_map p) i = Some (Some j) ->
     exists nd nd', nth_error nodes i = Some nd /\ 0 <= j /\ nth_error (po_nodes p) (Z.to_nat j) = Some nd' /\
                    incl (n_annots nd) (n_annots nd').
@@ -352,6 +356,22 @@ Example C06_ex_meta_eval :
                     (Ok [VArr [7]; VArr [9]; VTup [VArr [7]; VArr [9]]; VArr [9]; VArr [1];
                          VTup [VArr [7]; VArr [7]]; VArr [7]]))
             && eqb (po_map p) [Some 0; Some 1; Some 2; Some 1; Some 4; Some 5; Some 0]
+  | _ => false
+  end = true.
+Proof. vm_compute. reflexivity. Qed.
+
+(* A2B / B2A: B2A U8 (A2B x) is replaced by x (x : U8), B2A I8 (A2B x) is kept, A2B (B2A U8 y) is
+   replaced by y; both graphs evaluate to the same values along the map *)
+Definition ex_bits_nodes : list node :=
+  [inp t8; mkNode OA2B [0] [] [] (TArray [8] Bit); mkNode (OB2A U8) [1] [] [] t8;
+   mkNode (OB2A I8) [1] [] [] (TScalar I8); mkNode OA2B [2] [] [] (TArray [8] Bit); mkNode OAdd [2;2] [] [] t8].
+Example C06_ex_meta_bits :
+  match opt_meta ex_bits_nodes (Some 5) with
+  | Ok p => eqb (po_map p) [Some 0; Some 1; Some 0; Some 3; Some 1; Some 5]
+            && eqb (eval_graph_nodes ex_bits_nodes (tape_of_list [(0, VArr [200])]))
+                   (Ok [VArr [200]; VArr [0;0;0;1;0;0;1;1]; VArr [200]; VArr [200]; VArr [0;0;0;1;0;0;1;1]; VArr [144]])
+            && eqb (eval_graph_nodes (po_nodes p) (transport (po_map p) (tape_of_list [(0, VArr [200])])))
+                   (Ok [VArr [200]; VArr [0;0;0;1;0;0;1;1]; VArr [200]; VArr [200]; VArr [0;0;0;1;0;0;1;1]; VArr [144]])
   | _ => false
   end = true.
 Proof. vm_compute. reflexivity. Qed.
